@@ -571,7 +571,7 @@ def run(ctx):
         process(ctx, 60, 60, 60, 8)
     else:
         go_monte_carlo(ctx)
-        process(ctx, 800, 800, 800, 80)
+        process(ctx, 2000, 2000, 2000, 160)
 
 
 def search(ctx):
